@@ -61,15 +61,26 @@ def run_snaps(tier, verdict, prop, cov, nproc=8):
             return True
         return False
 
-    res = common.run_tlc("MC_Recover", cfg="MC_Recover_snaps.cfg", workers=6, heap="4g", timeout=1200, line_cb=on_line)
+    res = common.run_tlc("MC_Recover", cfg="MC_Recover_snaps.cfg" if tier == "quick" else "MC_Recover_snaps_thorough.cfg", workers=6, heap="6g", timeout=1800, line_cb=on_line)
     fh.close()
-    common.tlc_ok(res, "MC_Recover_snaps.cfg")
+    common.tlc_ok(res, "MC_Recover_snaps*.cfg")
     quick = tier == "quick"
-    return _replay(tier, verdict, prop, cov, nproc, d, scen, n[0], res, {"segment_sizes": "1" if quick else SEGSIZES, "min_wal_snapshots": 2 if quick else 1},
-                   key="recover_model_snapshots", segsizes="1" if quick else SEGSIZES, minsnaps=2 if quick else 1)
+    # the weakened constant (SaveSnapshot always moves enti) must break NothingLost: the model depends on the rule
+    weak = common.run_tlc("MC_Recover", cfg="MC_Recover_snaps_enti.cfg", workers=4, heap="3g", timeout=900, line_cb=lambda l: l.startswith('"RSCEN '))
+    if weak.violated not in ("NothingLost", "Acceptable"):
+        common.die_infra("MC_Recover_snaps_enti.cfg should violate NothingLost (got %s)" % weak.violated)
+    # (a) behaviours without model-chosen cuts, with a cut at the end of EVERY Save (two or more snapshots). A cut syncs, so
+    # records the model holds unsynced are durable here (the sibling rule accepts that); behaviours with a damaged snapshot
+    # file are left to (b): whether a fall-back exists depends on what was durable, which this mode changes
+    _replay(tier, verdict, prop, cov, nproc, d, scen, n[0], res, {"segment_size": 1, "min_wal_snapshots": 2, "model_cuts": 0},
+            key="recover_model_snapshots_cut_everywhere", segsizes="1", more=["-minsnaps", "2", "-maxcuts", "0", "-maxdamage", "0"])
+    # (b) the cuts where the model put them (at most two per behaviour), damaged newest snapshot files included
+    pick = 6 if quick else 1
+    return _replay(tier, verdict, prop, cov, nproc, d, scen, n[0], res, {"min_model_cuts": 1, "one_behaviour_in": pick, "weakened_enti_rule_violates": weak.violated},
+                   key="recover_model_snapshots", segsizes="262144", more=["-mincuts", "1", "-minsnaps", "1" if quick else "0", "-pick", str(pick), "-seed", str(common.seed())])
 
 
-def _replay(tier, verdict, prop, cov, nproc, d, scen, total, res, extra, key="recover_model", segsizes=None, minsnaps=0):
+def _replay(tier, verdict, prop, cov, nproc, d, scen, total, res, extra, key="recover_model", segsizes=None, more=()):
     tool = ks.build_tool("recoversim")
     chunk = (total + nproc - 1) // nproc
     out = dict({"tlc_states": res.distinct, "tlc_transitions": res.generated, "behaviours": total, "replayed": 0, "recoveries_compared": 0,
@@ -79,9 +90,9 @@ def _replay(tier, verdict, prop, cov, nproc, d, scen, total, res, extra, key="re
         lo, hi = i * chunk, min(total, (i + 1) * chunk)
         if lo >= hi:
             return None
-        work = os.path.join(d, "w%d" % i)
+        work = os.path.join(d, "w%d-%s" % (i, key))
         os.makedirs(work)
-        return subprocess.run([tool, "run", "-scen", scen, "-work", work, "-lo", str(lo), "-hi", str(hi), "-segsizes", segsizes or SEGSIZES, "-minsnaps", str(minsnaps)], stdout=subprocess.PIPE, stderr=subprocess.PIPE,
+        return subprocess.run([tool, "run", "-scen", scen, "-work", work, "-lo", str(lo), "-hi", str(hi), "-segsizes", segsizes or SEGSIZES] + list(more), stdout=subprocess.PIPE, stderr=subprocess.PIPE,
                               timeout=3000, env=common.env())
 
     seen = set()
@@ -127,11 +138,12 @@ def _replay(tier, verdict, prop, cov, nproc, d, scen, total, res, extra, key="re
                 common.die_infra("recoversim failed (rc=%s): %s" % (p.returncode, p.stderr.decode("utf-8", "replace")[-1500:]))
             for k in ("replayed", "recoveries_compared", "not_realisable_by_process_kill"):
                 out[k] += summ[k]
-    if out.get("divergences") and not verdict.violations and key in ("recover_model", "recover_model_snapshots"):
+    if out.get("divergences") and not verdict.violations and key in ("recover_model", "recover_model_snapshots", "recover_model_snapshots_cut_everywhere"):
         common.die_infra("recovery diverges from Recover.tla in %d behaviours without violating a clause of the property (see DIVERGENCE lines)" % out["divergences"])
     cov[key] = out
-    cov["states"] = cov.get("states", 0) + res.distinct
-    cov["transitions"] = cov.get("transitions", 0) + res.generated
+    if key != "recover_model_snapshots_cut_everywhere":      # the same TLC run feeds two replays
+        cov["states"] = cov.get("states", 0) + res.distinct
+        cov["transitions"] = cov.get("transitions", 0) + res.generated
     cov["traces_validated_against_impl"] = cov.get("traces_validated_against_impl", 0) + out["replayed"]
     return out
 
@@ -147,7 +159,7 @@ def _norm_steps(steps):
         elif st["op"] == "recover":
             out.append(("recover",))
         else:
-            out.append((st["op"], st.get("i", 0), st.get("t", 0), st.get("c", 0), json.dumps(st.get("ents") or []), bool(st.get("sync"))))
+            out.append((st["op"], st.get("i", 0), st.get("t", 0), st.get("c", 0), json.dumps(st.get("ents") or []), bool(st.get("sync")), bool(st.get("cut"))))
     return tuple(out)
 
 
@@ -215,9 +227,11 @@ def _clauses(f):
 
 def _show(s):
     if s["op"] == "save":
-        return "Save(term %d commit %d, %d entries%s)" % (s["t"], s["c"], len(s.get("ents") or []), "" if s.get("sync") else ", no sync")
+        return "Save(term %d commit %d, %d entries%s)" % (s["t"], s["c"], len(s.get("ents") or []), ("" if s.get("sync") else ", no sync") + (", ends with a segment cut" if s.get("cut") else ""))
     if s["op"] in ("snapfile", "walsnap"):
         return "%s(%d,%d)" % (s["op"], s["i"], s["t"])
+    if s["op"] == "damage":
+        return "snapshot file (%d,%d) found damaged" % (s["i"], s["t"])
     if s["op"] == "crash":
         return "CRASH"
     if s["op"] == "recover":
